@@ -638,7 +638,7 @@ func runConcurrent(c *ev.Ctx, r *rand.Rand) {
 		refID []byte
 		plain string
 	}
-	iters := c.Pick(2500, 6000)
+	iters := c.Pick(1500, 6000)
 	sets := make([][]one, concGoroutines)
 	for g := range sets {
 		key := sig.NewKey(r)
